@@ -6,7 +6,7 @@ from props.C07 import PRE, coq_case
 
 ND = -9999.0
 KINDS = ["ordinary", "outlier_hi", "outlier_lo", "lowvar", "lowvar_outlier", "negatives", "all_nodata", "all_negative", "all_zero",
-         "constant", "zeros_gt90", "no_positive_in_window", "int16_extreme"]
+         "constant", "zeros_gt90", "no_positive_in_window", "int16_extreme", "deep_lower_tail"]
 
 
 def pixel(rng, kind, n, dtype):
@@ -49,6 +49,14 @@ def pixel(rng, kind, n, dtype):
     elif kind == "no_positive_in_window":
         c0, c1 = 0, max(2, n // 3)
         x[c0:c1] = rng.choice([0.0, ND, -1.0], size=c1 - c0)
+    elif kind == "deep_lower_tail":
+        # observations whose gamma probability is finite but far below 1e-235: the index is finite and below -32.768, so it must
+        # saturate at -32768 (a float -> int16 store would wrap it to a positive number); p ~ (x / mean)^shape
+        n = max(n, 64)
+        shape = float(rng.choice([1.0, 4.0, 8.0, 20.0]))
+        x = rng.gamma(shape, 100.0 / shape, size=n)
+        c0, c1 = 0, n - 5
+        x[c1:] = 100.0 * 10.0 ** (-np.array([245.0, 265.0, 285.0, 305.0, 318.0]) / shape)
     elif kind == "int16_extreme":
         x = np.clip(np.round(rng.gamma(4.0, 1.0, size=n)), 0, None)
         c0, c1 = 0, max(2, n - 2)
@@ -185,7 +193,7 @@ def run(ctx):
     r1 = core.eval_cases("C08", "spi", PRE, coq, "check_spi", shard=12, scope="Z")
     ctx.cov["evaluations"] = len(cases) + dist["cube_pixels"]
     ctx.cov["distinct_nontrivial"] = len(set(coq))
-    ctx.cov["rule"] = ("seeded pixels of 13 kinds (ordinary, outliers x1e2..1e6 and x1e-3..1e-300 relative to the calibration median, shape 500..1e4 "
+    ctx.cov["rule"] = ("seeded pixels of 14 kinds (ordinary, outliers x1e2..1e6 and x1e-3..1e-300 relative to the calibration median, shape 500..1e4 "
                        "windows, negatives, all-nodata / all-negative / all-zero / constant / >90%% zeros / no positive value in the window, int16 "
                        "extremes), int16 / float64 / float32, plus cubes mixing the kinds; clauses of the property evaluated on the observed output, "
                        "int16/float64 pixels also replayed bit-for-bit in the model")
